@@ -213,6 +213,7 @@ def dispatch (c : Ctx) (r : Row) (options : BitVec 32) (o0 o1 o2 o3 : Op) : Exce
   | 0x76 => vexRvm ((opcode ||| (b2w o0.isMask <<< 12)) ||| lx01)                  -- VexRvm_Lx_KEvex
   | 0x73 => vexRvm (opcode ||| (if o0.rmSize == 8 && o0.isGp || o2.rmSize == 8 then kW else 0#32))   -- VexRvm_Wx (`o0.is_gp64() | o2.x86_rm_size() == 8`)
   | 0x7b => vexRvmi (opcode ||| (b2w o0.isMask <<< 12))                            -- VexRvmi_KEvex
+  | 0x7d => vexRvmi ((opcode ||| (b2w o0.isMask <<< 12)) ||| lx01)                 -- VexRvmi_Lx_KEvex
   | 0x7a => vexRvmi opcode                                                         -- VexRvmi
   | 0x7c => vexRvmi (opcode ||| lx01)                                              -- VexRvmi_Lx
   | 0x62 =>                                                                        -- VexMr_Lx
